@@ -2,6 +2,7 @@ package main
 
 import (
 	"context"
+	"errors"
 	"fmt"
 	"os"
 	"path/filepath"
@@ -53,10 +54,30 @@ type OpResult struct {
 	Found    map[int64]struct{} // result of the Find* helper (called before the mutating variant)
 	FoundErr error
 	HaveMsgs bool
+	Stopped  bool // the multi-pass driver was stopped by its backoff: the result is the partial one
 	ClosedEr []error
 }
 
 var noBackoff = func(context.Context) error { return nil }
+
+// errStopBackoff is what a stopping backoff returns: the multi-pass drivers must hand back what they
+// deleted so far together with it.
+var errStopBackoff = errors.New("verif: backoff stops the multi-pass delete")
+
+// backoffFor returns the backoff of a multi-pass call: it fails on its op.StopAfter-th invocation.
+func backoffFor(op *Op) func(context.Context) error {
+	if op.StopAfter == 0 {
+		return noBackoff
+	}
+	calls := 0
+	return func(context.Context) error {
+		calls++
+		if calls == op.StopAfter {
+			return errStopBackoff
+		}
+		return nil
+	}
+}
 
 func offsetSet(offs []int64) map[int64]struct{} {
 	s := make(map[int64]struct{}, len(offs))
@@ -106,13 +127,13 @@ func (h *Hist) exec(op *Op) *OpResult {
 			res.Deleted, res.HaveMsgs = toRefs(del), true
 		case "multi":
 			res.Err = guard(func() error {
-				del, sz, err := klevdb.DeleteMulti(ctx, l, set, noBackoff)
+				del, sz, err := klevdb.DeleteMulti(ctx, l, set, backoffFor(op))
 				res.Deleted, res.Size, res.HaveMsgs = toRefs(del), sz, true
 				return err
 			})
 		case "multioffsets":
 			res.Err = guard(func() error {
-				offs, sz, err := klevdb.DeleteMultiOffsets(ctx, l, set, noBackoff)
+				offs, sz, err := klevdb.DeleteMultiOffsets(ctx, l, set, backoffFor(op))
 				res.DelOffs, res.Size = offs, sz
 				return err
 			})
@@ -130,6 +151,10 @@ func (h *Hist) exec(op *Op) *OpResult {
 	case "stat":
 		res.Stage = "stat"
 		_, res.Err = kStat(l)
+	}
+	if errors.Is(res.Err, errStopBackoff) {
+		res.Stopped, res.Err = true, nil
+		h.cov.Add("multi_stopped", 1)
 	}
 	if res.HaveMsgs || res.Deleted != nil {
 		res.DelOffs = map[int64]struct{}{}
@@ -173,29 +198,29 @@ func (h *Hist) execTrim(ctx context.Context, op *Op, res *OpResult) {
 		case "offset/":
 			del, sz, err = klevdb.TrimByOffset(ctx, l, op.N)
 		case "offset/multi":
-			del, sz, err = klevdb.TrimByOffsetMulti(ctx, l, op.N, noBackoff)
+			del, sz, err = klevdb.TrimByOffsetMulti(ctx, l, op.N, backoffFor(op))
 		case "offset/multioffsets":
-			offs, sz, err = klevdb.TrimByOffsetMultiOffsets(ctx, l, op.N, noBackoff)
+			offs, sz, err = klevdb.TrimByOffsetMultiOffsets(ctx, l, op.N, backoffFor(op))
 			msgsAPI = false
 		case "count/":
 			del, sz, err = klevdb.TrimByCount(ctx, l, int(op.N))
 		case "count/multi":
-			del, sz, err = klevdb.TrimByCountMulti(ctx, l, int(op.N), noBackoff)
+			del, sz, err = klevdb.TrimByCountMulti(ctx, l, int(op.N), backoffFor(op))
 		case "count/multioffsets":
-			offs, sz, err = klevdb.TrimByCountMultiOffsets(ctx, l, int(op.N), noBackoff)
+			offs, sz, err = klevdb.TrimByCountMultiOffsets(ctx, l, int(op.N), backoffFor(op))
 			msgsAPI = false
 		case "size/":
 			del, sz, err = klevdb.TrimBySize(ctx, l, op.N)
 		case "size/multi":
-			del, sz, err = klevdb.TrimBySizeMulti(ctx, l, op.N, noBackoff)
+			del, sz, err = klevdb.TrimBySizeMulti(ctx, l, op.N, backoffFor(op))
 		case "size/multioffsets":
-			del, sz, err = klevdb.TrimBySizeMultiOffsets(ctx, l, op.N, noBackoff)
+			del, sz, err = klevdb.TrimBySizeMultiOffsets(ctx, l, op.N, backoffFor(op))
 		case "age/":
 			del, sz, err = klevdb.TrimByAge(ctx, l, before)
 		case "age/multi":
-			del, sz, err = klevdb.TrimByAgeMulti(ctx, l, before, noBackoff)
+			del, sz, err = klevdb.TrimByAgeMulti(ctx, l, before, backoffFor(op))
 		case "age/multioffsets":
-			offs, sz, err = klevdb.TrimByAgeMultiOffsets(ctx, l, before, noBackoff)
+			offs, sz, err = klevdb.TrimByAgeMultiOffsets(ctx, l, before, backoffFor(op))
 			msgsAPI = false
 		}
 		res.Size = sz
@@ -240,16 +265,16 @@ func (h *Hist) execCompact(ctx context.Context, op *Op, res *OpResult) {
 		case "updates/":
 			del, sz, err = klevdb.CompactUpdates(ctx, l, before)
 		case "updates/multi":
-			del, sz, err = klevdb.CompactUpdatesMulti(ctx, l, before, noBackoff)
+			del, sz, err = klevdb.CompactUpdatesMulti(ctx, l, before, backoffFor(op))
 		case "updates/multioffsets":
-			offs, sz, err = klevdb.CompactUpdatesMultiOffsets(ctx, l, before, noBackoff)
+			offs, sz, err = klevdb.CompactUpdatesMultiOffsets(ctx, l, before, backoffFor(op))
 			msgsAPI = false
 		case "deletes/":
 			del, sz, err = klevdb.CompactDeletes(ctx, l, before)
 		case "deletes/multi":
-			del, sz, err = klevdb.CompactDeletesMulti(ctx, l, before, noBackoff)
+			del, sz, err = klevdb.CompactDeletesMulti(ctx, l, before, backoffFor(op))
 		case "deletes/multioffsets":
-			offs, sz, err = klevdb.CompactDeletesMultiOffsets(ctx, l, before, noBackoff)
+			offs, sz, err = klevdb.CompactDeletesMultiOffsets(ctx, l, before, backoffFor(op))
 			msgsAPI = false
 		}
 		res.Size = sz
